@@ -215,7 +215,7 @@ pub fn drive<C: PCheck>(c: &C, cfg: &Cfg, rep: &mut Report, spec: &StreamSpec, o
             crate::report::absorb_hooks(rep, &k);
         }
         c.after_program(&prep, p, rep);
-        if any_nontrivial && rep.samples.len() < rep.max_samples && rep.get("programs") % opts.sample_every == 1 {
+        if any_nontrivial && rep.samples.len() < rep.max_samples && (rep.samples.is_empty() || rep.get("programs") % opts.sample_every == 1) {
             rep.sample(p.describe().set("haystacks", hays.len()).set("example_haystack", hays.last().cloned().unwrap_or_default()));
         }
     });
